@@ -73,3 +73,32 @@ REG.note('C10', 'trusted', 'M2 (sign-then-verify tasks): privateKey.sign/verify 
                            'signature is the verify contracts (RSA: proved here; ECDSA/EdDSA/DSA: external package, assumed)')
 REG.note('C10', 'not_built', 'sign-then-verify dominance for signServerKeyExchange (<TLS1.2 branch), makeCertificateVerify and the TLS 1.3 '
                              'CertificateVerify emission sites')
+
+
+# --- DSA verification range checks (C10/C05): FIPS 186-4 section 4.7 -- a signature with r or s outside (0, q) must be rejected
+def _check_dsa_verify(api):
+    rets = api.exits('return')
+    api.oblige(api.entry, 'has-return-exits', len(rets) >= 2)
+    LT = z3.Function('v_cmp_lt', smt.Val, smt.Val, smt.B)
+    from pyvc.values import VInt, VBool as _VB
+    seen_compare = False
+    for k, o in enumerate(rets, 1):
+        v = o.val
+        if isinstance(v, _VB) and z3.is_false(z3.simplify(v.t)):
+            continue                       # `return False`
+        seen_compare = True
+        st = o.st
+        r, s = st.env.get('r'), st.env.get('s')
+        q = api.ex.getattr_(st.env['self'], 'q', st, api.fr)[0].val
+        zero = to_val(VInt(0))
+        goal = z3.BoolVal(False) if (r is None or s is None) else z3.And(
+            LT(zero, to_val(r)), LT(to_val(r), to_val(q)), LT(zero, to_val(s)), LT(to_val(s), to_val(q)))
+        api.oblige(st, 'return#%d:a-signature-can-verify-only-if-0<r<q-and-0<s<q' % k, goal)
+    api.oblige(api.entry, 'has-a-verifying-exit', seen_compare)
+
+
+m2task('Python_DSAKey.verify/range-checks', ('C10', 'C05'), 'tlslite/utils/python_dsakey.py:Python_DSAKey.verify',
+       M2Spec(pure={'numBits', 'bytesToNumber', 'compatHMAC', 'remove_sequence', 'remove_integer', 'invMod', 'powMod', 'mpz'}),
+       check=_check_dsa_verify, opts={'ground_feasible': True},
+       doc='every path on which DSA verify can return True has checked 0 < r < q and 0 < s < q (with s = 0 the inverse is 0 '
+           'and v == r holds for r = g^0 y^0 = 1: a universal forgery)')
